@@ -110,6 +110,8 @@ def window_norm(spec):
     d = spec["d"]
     if d <= 0:
         return []
+    if spec["c"] == "blackman" and d <= 2:
+        return [1.0] * d        # /repo e02d4356: windows of at most two samples are flat
     with warnings.catch_warnings():
         warnings.simplefilter("ignore")
         w = np.blackman(d) if spec["c"] == "blackman" else np.kaiser(d, spec["beta"])
